@@ -153,6 +153,13 @@ ConvOK(r) ==
         /\ r.wrote = (IF Len(want) > 0 THEN 1 ELSE 0)                  \* the copy is writable even when the source is not
         /\ r.after = [k \in 1..Len(want) |-> IF k = 1 THEN 60 ELSE want[k]]
 
+\* the component view of a masked reference: the components of the SELECTED elements (as read element by element), and a
+\* write to its second entry reaches the second selected element (0-based position SelIdx(mask)[2]); raising is not accepted
+\* as an answer here: the accessor exists for masked references too
+MaskCompOK(r) == /\ r.exc = 0
+                 /\ r.out = r.want_from_elements
+                 /\ r.wrote = <<SelIdx(r.mask)[2]>>
+
 \* an index beyond the range of the C index type is out of range: raises, nothing changes
 HugeIdxOK(r) == r.exc = 1 /\ r.unchanged = 1
 
